@@ -4,12 +4,17 @@ Sub-checks (every point of each finite lattice is evaluated, nothing is sampled)
 
   layout    every bank configuration: centres / band edges against mc/refs/banks.py
             (scale formulas from the literature), ordering, centre inside supports_hz
-  triangle  triangular / Fbank banks x DFT widths: the documented triangle at every bin
+  triangle  triangular / Fbank banks x DFT widths x half in {False, True}: the documented triangle at
+            every bin
   response  every filter of every bank whose documented support spans < rate/2:
             gain 1 at the centre (or unit L2 norm), peak position, 3 dB crossings at the
             band edges (erb=False) or ERB = edge spacing (erb=True).  Gabor / gammatone are
             measured on a DTFT of get_impulse_response in a wide buffer (time -> frequency,
             an independent route) and cross-checked on get_frequency_response.
+  response_grid
+            Gabor / gammatone: gain, peak and 3 dB crossings measured ON get_frequency_response for
+            every combination of half in {False, True} x DFT width {even, odd}, at widths whose grid
+            contains the centre / the band edge
   reject    invalid (low_hz, high_hz) ranges must raise ValueError
   construction_histories
             two banks constructed one after the other in ONE process (every ordered pair of an alphabet
@@ -31,6 +36,10 @@ parameters), a boundary part with odd and fractional sampling rates, whose top e
 on floor(rate/2) and rate/2, and a part in which the nested scaling-function object carries non-default
 parameters (linear: slope_hz 0.001 / 0.5 / 3 with low_hz 0 / 10 / 50; octave: low_hz 1 / 7.5 / 100) for
 every bank class that takes a scaling function, at the rates of both other parts.
+
+A fourth part is built with the documented package constant EFFECTIVE_SUPPORT_THRESHOLD lowered (1e-4) or
+raised (2e-3) BEFORE construction (restored afterwards); every tolerance stated in units of the threshold
+is taken from the value in force.
 
 A *valid* configuration whose constructor raises is counted (obs "unconstructible:<text>",
 trivial point), not reported: the property speaks about the filters of a bank that exists.
